@@ -24,7 +24,7 @@ COMMON_TRUST = ("Assumed: the shims' contracts for std / async-std / walkdir / p
                 "tree during a run; fewer than 2^32 statements.")
 
 PROPS = {
-    "C01": _p(["generate", "find", "entry", "directive"], COMMON_TRUST + " A lock value, when present, is >= 1 (written by Breadlog).",
+    "C01": _p(["generate", "find", "entry", "directive", "context"], COMMON_TRUST + " A lock value, when present, is >= 1 (written by Breadlog).",
               "proof for all entry lists / file sets / counter values: reduce, Insert::map (consecutive checked IDs), the drivers' alloc_inv "
               "(disjoint ranges above every existing ID) and generate_code; Kani finds counterexamples for failed obligations and, in the thorough tier, "
               "cross-checks the reduce functions on the unrewritten crate (bounded)", extra=[("kani_cross_check", _c01k.run)]),
